@@ -1,3 +1,4 @@
+use crate::err::Error::RuntimeError;
 use crate::func;
 use crate::libapi::{FuncDef, Module};
 use crate::sym::Symbol;
@@ -33,7 +34,7 @@ const JUMP_MILLIS: FuncDef = func!(
     |mut args| {
         let ms: u64 = args.next().into();
 
-        Ok(Val::TimeJump(ms * KHZ))
+        Ok(Val::TimeJump(ms.checked_mul(KHZ).ok_or(RuntimeError)?))
     }
 );
 
@@ -48,7 +49,7 @@ const JUMP_MICROS: FuncDef = func!(
     |mut args| {
         let us: u64 = args.next().into();
 
-        Ok(Val::TimeJump(us * MHZ))
+        Ok(Val::TimeJump(us.checked_mul(MHZ).ok_or(RuntimeError)?))
     }
 );
 
